@@ -1,3 +1,4 @@
+mod consts;
 pub mod decoders;
 pub mod gen_osu;
 mod out;
@@ -19,8 +20,11 @@ fn main() {
         render::render_file(&args[2], &args[3]);
         return;
     }
+    if (args.len() == 3 || args.len() == 4) && args[1] == "consts" {
+        std::process::exit(consts::run(&args[2], args.get(3).map(String::as_str)));
+    }
     if args.len() < 6 || args[1] != "gen" {
-        eprintln!("usage: rmh gen <property> <tier> <seed> <outdir>");
+        eprintln!("usage: rmh gen <property> <tier> <seed> <outdir> | rmh render <in> <out> | rmh consts <out.json> [Generated.v]");
         std::process::exit(2);
     }
     let prop = args[2].as_str();
